@@ -569,8 +569,15 @@ impl World {
                     Some(p) => {
                         let len = h.rb.len();
                         if *nl <= len {
-                            h.rb.truncate(*nl);
-                            h.expect.truncate(*nl);
+                            // Shrink either at the end (truncate) or at the front (remove(..k)): both
+                            // only change the length; the buffer must keep its place in its slot.
+                            if (*nl + len + *b) % 2 == 0 {
+                                h.rb.truncate(*nl);
+                                h.expect.truncate(*nl);
+                            } else {
+                                h.rb.remove(..(len - *nl));
+                                h.expect.drain(..(len - *nl));
+                            }
                         } else {
                             let extra: Vec<u8> = (len..*nl).map(|k| pat(h.comp ^ 0xABCD, k)).collect();
                             if h.rb.extend_from_slice(&extra).is_err() {
